@@ -263,8 +263,9 @@ def table_model(spec):
             cell = {'count': _eff(a, 'count', t['count']), 'rep_code': code, 'units': _eff(a, 'units', t['units']),
                     'values': t['values'] if a.get('values') is None else _values_model(code, a['values']),
                     'present': _present(a), 'how': 'explicit'}
-            if a.get('values') is None and t['values'] is not None and ('C' in cell['present'] or 'R' in cell['present']):
-                raise EncoderError('count/code overridden without a value on an attribute with a template value (ambiguous)')
+            if a.get('values') is None and t['values'] is not None and ('R' in cell['present'] or ('C' in cell['present'] and cell['count'] == 0)):
+                raise EncoderError('code (or a count of 0) overridden without a value on an attribute with a template value (ambiguous)')
+            # (a count alone may be overridden without a value: the cell then states the object's count and the template's value)
             cells.append(cell)
         if j != len(ob['attrs']):
             raise EncoderError('object attribute components left over')
@@ -648,7 +649,7 @@ def _object_attr(draw, t, allow_absent):
         a['code'] = _pick(draw, CODES)
     if draw(ints(0, 3)) == 0:
         a['units'] = _units(draw)
-    overridden = a['count'] is not None or a['code'] is not None
+    overridden = a['code'] is not None or a['count'] == 0
     if kind < 10 or (overridden and t['values'] is not None):
         a['values'] = _values(draw, _eff(a, 'code', _eff(t, 'code', 19)), _eff(a, 'count', _eff(t, 'count', 1)))
     return a
